@@ -839,6 +839,15 @@ class PyFat(object):
         eoc_min = cluster_vals["END_OF_CLUSTER_MIN"]
         eoc_max = cluster_vals["END_OF_CLUSTER_MAX"]
 
+        # A volume with (almost) the maximum number of clusters of its FAT
+        # type uses cluster numbers beyond MAX_DATA_CLUSTER, up to the number
+        # of its last cluster (the values behind that one are reserved)
+        data_sectors = self._get_total_sectors() - self.first_data_sector
+        last_cluster = data_sectors // self.bpb_header["BPB_SecPerClus"] + 1
+        max_data_cluster = max(max_data_cluster,
+                               min(last_cluster,
+                                   cluster_vals["BAD_CLUSTER"] - 1))
+
         i = first_cluster
         visited = 0
         while True:
